@@ -306,3 +306,21 @@ Proof.
     rewrite S2_moment0. ring.
 Qed.
 End Ed.
+
+(* the same over the definition GENERATED from the source (Gen/Rhs2.v) *)
+From EoNV Require Import Rhs2 Rhs2GenP.
+Lemma Phi_ed_length c N tau g phiS0 phiR0 theta R :
+  length (Phi_ed c N tau g phiS0 phiR0 theta R) = (length c * length c + 1)%nat.
+Proof. unfold Phi_ed. rewrite app_length, Ssi_eval, tab2_length. reflexivity. Qed.
+Lemma ebcm_to_ed_generated c t N tau g phiS0 phiR0 (ps psP : Q -> Q) theta :
+  ~ theta == 0 -> ~ peval (phiI_p c tau g phiS0 phiR0) theta + peval (phiR_p tau g phiR0) theta == 0 -> forall R,
+  ps theta == peval c theta -> psP theta == D c theta -> psP 1 == D c 1 ->
+  ~ tau == 0 -> ~ N == 0 -> ~ peval (phiS_p c phiS0) theta == 0 -> ~ D c theta == 0 -> ~ D c 1 == 0 ->
+  let e := dEBCM [theta; R] t N tau g ps psP phiS0 phiR0 in
+  veq (g_dSIR_effective_degree (Phi_ed c N tau g phiS0 phiR0 theta R) t N (length c, length c) tau g)
+      (DPhi_ed c N tau g phiS0 phiR0 theta (vnth 0 e) (vnth 1 e)).
+Proof.
+  intros Hth Hw R E0 E1 E11 Ht HN Hx Ha Hc. cbv zeta.
+  etransitivity; [apply gen_dSIR_effective_degree, Phi_ed_length|].
+  apply (ebcm_to_ed c t N tau g phiS0 phiR0 ps psP theta Hth Hw R); assumption.
+Qed.
